@@ -624,6 +624,30 @@ theorem walk_not_wrapper : ∀ (c : List ErrT), c ≠ [] → c.getLast? ≠ some
 
 /-! ## E. Sequences: every later configuration call on an already configured mocker -/
 
+/-- the first `Return/When/Returns` of a mocker: whichever step it is, a rejection leaves the image and the registry as
+    `RejectedNoop` says and the entry jumping where it did -/
+theorem seqFirst_rejected (tg : Target) (isM : Bool) (repl : Nat) (ms ms' : MS) (st : Step) (e : Rej)
+    (h : seqFirst tg isM repl ms st = (ms', .error e)) :
+    RejectedNoop ms.g ms'.g tg.id repl ∧ ms'.imp = ms.imp := by
+  unfold seqFirst at h
+  simp only at h
+  split at h
+  · -- CreateWhen failed
+    simp only [Prod.mk.injEq, Except.error.injEq] at h
+    obtain ⟨rfl, _⟩ := h
+    exact ⟨RejectedNoop.refl _ _ _, rfl⟩
+  · split at h
+    · -- filling the When (Returns) failed: nothing is kept, nothing applied
+      simp only [Prod.mk.injEq, Except.error.injEq] at h
+      obtain ⟨rfl, _⟩ := h
+      exact ⟨RejectedNoop.refl _ _ _, rfl⟩
+    · split at h
+      · rename_i g1 e1 h1
+        simp only [Prod.mk.injEq, Except.error.injEq] at h
+        obtain ⟨rfl, rfl⟩ := h
+        exact ⟨(applyByFunc_rejected _ _ _ _ _ _ _ h1).1, rfl⟩
+      · simp [pure, Except.pure] at h
+
 /-- **a rejected call at any point of a configuration sequence** (`Return/When/Returns/AndReturn/In/Matches/Apply`, on the
     handle or through a repeated lookup; functions and methods): the image, the registry and what the entry jumps to are
     as `RejectedNoop` says — in particular a first `Returns(..)` whose value list is bad is rejected BEFORE `doApply`
@@ -659,22 +683,7 @@ theorem seqStep_rejected (tg : Target) (isM : Bool) (repl : Nat) (ms ms' : MS) (
       rw [hg.1]; exact ⟨RejectedNoop.refl _ _ _, hg.2⟩
     | none =>
       simp only [hw] at h
-      split at h
-      · -- CreateWhen failed
-        simp only [Prod.mk.injEq, Except.error.injEq] at h
-        obtain ⟨rfl, _⟩ := h
-        exact ⟨RejectedNoop.refl _ _ _, rfl⟩
-      · split at h
-        · -- filling the When (Returns) failed: nothing is kept, nothing applied
-          simp only [Prod.mk.injEq, Except.error.injEq] at h
-          obtain ⟨rfl, _⟩ := h
-          exact ⟨RejectedNoop.refl _ _ _, rfl⟩
-        · split at h
-          · rename_i g1 e1 h1
-            simp only [Prod.mk.injEq, Except.error.injEq] at h
-            obtain ⟨rfl, rfl⟩ := h
-            exact ⟨(applyByFunc_rejected _ _ _ _ _ _ _ h1).1, rfl⟩
-          · simp [pure, Except.pure] at h
+      exact seqFirst_rejected _ _ _ _ _ _ _ h
 
 /-- consequently a target whose entry does not (yet) jump to this mocker's When-function behaves exactly as before -/
 theorem seqStep_rejected_behaviour (tg : Target) (isM : Bool) (repl : Nat) (ms ms' : MS) (st : Step) (e : Rej) (pre : Beh)
@@ -766,6 +775,16 @@ theorem bad_apply_keeps_configuration (tg : Target) (isM : Bool) (repl : Nat) (m
       exact ⟨rfl, rfl, rfl⟩
     | ok u => simp [h1, pure, Except.pure] at h
 
+/-- the first `Return/When/Returns` of an interface-method mocker: a rejection leaves the mocker exactly as it was -/
+theorem ifaceFirst_rejected (m : Sig) (s s' : IS) (st : Step) (e : Rej) (h : ifaceFirst m s st = (s', .error e)) : s' = s := by
+  unfold ifaceFirst at h
+  simp only at h
+  split at h
+  · simp only [Prod.mk.injEq] at h; exact h.1.symm
+  · split at h
+    · simp only [Prod.mk.injEq] at h; exact h.1.symm
+    · simp [pure, Except.pure] at h
+
 /-- interface mockers (iface.go:112-186): a rejected call never replaces the variable, never changes what the method
     dispatches to nor the `As` function, and — when no `When` existed yet — leaves the mocker exactly as it was, so the
     same ill-fitting stub is rejected again on every retry -/
@@ -796,15 +815,9 @@ theorem ifaceMainStep_rejected (m : Sig) (s s' : IS) (st : Step) (e : Rej) (h : 
       exact ⟨this.1, this.2.1, this.2.2, fun hn => by simp at hn⟩
     | none =>
       simp only [hw] at h
-      split at h
-      · simp only [Prod.mk.injEq] at h
-        obtain ⟨rfl, _⟩ := h
-        exact ⟨rfl, rfl, rfl, fun _ => rfl⟩
-      · split at h
-        · simp only [Prod.mk.injEq] at h
-          obtain ⟨rfl, _⟩ := h
-          exact ⟨rfl, rfl, rfl, fun _ => rfl⟩
-        · simp [pure, Except.pure] at h
+      have := ifaceFirst_rejected _ _ _ _ _ h
+      subst this
+      exact ⟨rfl, rfl, rfl, fun _ => rfl⟩
 
 /-- interface mockers (iface.go:112-186), also when the test goes through `Interface(&structHoldingTheVariable)`: a rejected
     call never replaces the variable, never changes what the method dispatches to nor the `As` function, and — when no `When`
@@ -1008,6 +1021,30 @@ theorem ifaceCall_shape (v : IfaceVar) (name : String) (found : Bool) (m : Sig) 
             | error e3 => simp only [h3, Prod.mk.injEq, Except.error.injEq] at h; obtain ⟨rfl, _⟩ := h; exact good_whenReturn _ _ _ _ h3
             | ok w3 => simp [h3, pure, Except.pure] at h
 
+theorem seqFirst_shape (tg : Target) (isM : Bool) (repl : Nat) (ms ms' : MS) (st : Step) (e : Rej)
+    (h : seqFirst tg isM repl ms st = (ms', .error e)) : e.shape = true := by
+  unfold seqFirst at h
+  simp only at h
+  split at h
+  · rename_i e1 h1
+    simp only [Prod.mk.injEq, Except.error.injEq] at h; obtain ⟨_, rfl⟩ := h
+    split at h1
+    · exact good_createWS _ _ _ _ _ _ h1
+    · exact good_createWS _ _ _ _ _ _ h1
+    · exact good_createWS _ _ _ _ _ _ h1
+    · simp only [rStr, rej, Except.error.injEq] at h1; subst h1; rfl
+  · split at h
+    · rename_i w0 _ _ e1 h1
+      simp only [Prod.mk.injEq, Except.error.injEq] at h; obtain ⟨_, rfl⟩ := h
+      split at h1
+      · exact wReturns_shape _ _ _ _ _ _ h1
+      · simp [pure, Except.pure] at h1
+    · split at h
+      · rename_i g1 e1 h1
+        simp only [Prod.mk.injEq, Except.error.injEq] at h; obtain ⟨_, rfl⟩ := h
+        exact applyByFunc_shape _ _ _ _ _ _ _ h1
+      · simp [pure, Except.pure] at h
+
 theorem seqStep_shape (tg : Target) (isM : Bool) (repl : Nat) (ms ms' : MS) (st : Step) (e : Rej)
     (h : seqStep tg isM repl ms st = (ms', .error e)) : e.shape = true := by
   cases st with
@@ -1034,23 +1071,30 @@ theorem seqStep_shape (tg : Target) (isM : Bool) (repl : Nat) (ms ms' : MS) (st 
       exact whenStep_shape _ _ _ _ _ _ (Prod.ext rfl h2)
     | none =>
       simp only [hw] at h
-      split at h
-      · rename_i e1 h1
-        simp only [Prod.mk.injEq, Except.error.injEq] at h; obtain ⟨_, rfl⟩ := h
-        first
-          | exact good_createWS _ _ _ _ _ _ h1
-          | (simp only [rStr, rej, Except.error.injEq] at h1; subst h1; rfl)
-      · split at h
-        · rename_i w0 _ _ e1 h1
-          simp only [Prod.mk.injEq, Except.error.injEq] at h; obtain ⟨_, rfl⟩ := h
-          first
-            | exact wReturns_shape _ _ _ _ _ _ h1
-            | (simp [pure, Except.pure] at h1)
-        · split at h
-          · rename_i g1 e1 h1
-            simp only [Prod.mk.injEq, Except.error.injEq] at h; obtain ⟨_, rfl⟩ := h
-            exact applyByFunc_shape _ _ _ _ _ _ _ h1
-          · simp [pure, Except.pure] at h
+      exact seqFirst_shape _ _ _ _ _ _ _ h
+
+theorem ifaceFirst_shape (m : Sig) (s s' : IS) (st : Step) (e : Rej)
+    (h : ifaceFirst m s st = (s', .error e)) : e.shape = true := by
+  unfold ifaceFirst at h
+  simp only at h
+  split at h
+  · rename_i e1 h1
+    simp only [Prod.mk.injEq, Except.error.injEq] at h; obtain ⟨_, rfl⟩ := h
+    split at h1
+    · exact good_createWS _ _ _ _ _ _ h1
+    · exact good_createWS _ _ _ _ _ _ h1
+    · simp only [bind, Except.bind] at h1
+      split at h1
+      · rename_i e2 h2; simp only [Except.error.injEq] at h1; subst h1; exact good_createWS _ _ _ _ _ _ h2
+      · split at h1
+        · simp [pure, Except.pure] at h1
+        · rename_i w1 e2 h3; simp only [Except.error.injEq] at h1; subst h1; exact wReturns_shape _ _ _ _ _ _ h3
+    · simp only [rStr, rej, Except.error.injEq] at h1; subst h1; rfl
+  · split at h
+    · rename_i e1 h1
+      simp only [Prod.mk.injEq, Except.error.injEq] at h; obtain ⟨_, rfl⟩ := h
+      exact good_applyIface _ _ _ _ h1
+    · simp [pure, Except.pure] at h
 
 theorem ifaceMainStep_shape (m : Sig) (s s' : IS) (st : Step) (e : Rej)
     (h : ifaceMainStep m s st = (s', .error e)) : e.shape = true := by
@@ -1078,23 +1122,7 @@ theorem ifaceMainStep_shape (m : Sig) (s s' : IS) (st : Step) (e : Rej)
       exact whenStep_shape _ _ _ _ _ _ (Prod.ext rfl h2)
     | none =>
       simp only [hw] at h
-      split at h
-      · rename_i e1 h1
-        simp only [Prod.mk.injEq, Except.error.injEq] at h; obtain ⟨_, rfl⟩ := h
-        first
-          | exact good_createWS _ _ _ _ _ _ h1
-          | (simp only [rStr, rej, Except.error.injEq] at h1; subst h1; rfl)
-          | (simp only [bind, Except.bind] at h1
-             split at h1
-             · rename_i e2 h2; simp only [Except.error.injEq] at h1; subst h1; exact good_createWS _ _ _ _ _ _ h2
-             · split at h1
-               · simp [pure, Except.pure] at h1
-               · rename_i w1 e2 h3; simp only [Except.error.injEq] at h1; subst h1; exact wReturns_shape _ _ _ _ _ _ h3)
-      · split at h
-        · rename_i e1 h1
-          simp only [Prod.mk.injEq, Except.error.injEq] at h; obtain ⟨_, rfl⟩ := h
-          exact good_applyIface _ _ _ _ h1
-        · simp [pure, Except.pure] at h
+      exact ifaceFirst_shape _ _ _ _ _ h
 
 theorem good_holderStep (m fn : Sig) (st : Step) : Good (holderStep m fn st) := by
   cases st with
@@ -1412,12 +1440,17 @@ theorem iface_as_misfit_rejected (m : Sig) (s : IS) (st : Step) (hw : s.when = n
         · simp [rej] at h
         · exact hbad ((ifaceSignature_ok_iff m s.fn).1 h)
   obtain ⟨e, he⟩ := happ
-  rcases hst with ⟨v, rfl⟩ | ⟨a, hit, rfl⟩ | ⟨gs, rfl⟩
-  all_goals
-    simp only [ifaceSeqStep, hvia, Bool.false_and, Bool.false_eq_true, if_false, ifaceMainStep, hw]
+  have hfirst : ∀ st', ∃ e', ifaceFirst m s st' = (s, .error e') := by
+    intro st'
+    unfold ifaceFirst
+    simp only
     split
     · exact ⟨_, rfl⟩
     · simp only [he]; exact ⟨_, rfl⟩
+  rcases hst with ⟨v, rfl⟩ | ⟨a, hit, rfl⟩ | ⟨gs, rfl⟩
+  all_goals
+    simp only [ifaceSeqStep, hvia, Bool.false_and, Bool.false_eq_true, if_false, ifaceMainStep, hw]
+    exact hfirst _
 
 /-! ### the cause-chain clause at full strength, and what is proved of it -/
 
@@ -1445,5 +1478,42 @@ theorem cause_clause_partial (r : Rej) (h : Produced r)
 example : ∃ r, Produced r ∧ r.cls = .returnsNotMatch :=
   ⟨⟨.returnsNotMatch, [.returnsNotMatch 0 1]⟩,
    Produced.func G.init { id := 0, sig := ⟨[], [⟨.int, 8, 25, false, 0⟩], false, default⟩ } .orig .none 1 (.ret none) _ rfl, rfl⟩
+
+/-! ## I. A first `Returns()` without values (repaired by goom 1bc5b96) -/
+
+/-- **a first `Returns()` with no value on a function or method WITH results is rejected** with the typed cause
+    `*erro.ReturnsNotMatch(0, want)` — which is where the `erro.Cause` walk ends — and it leaves nothing behind: the image,
+    the registry, the mocker (no `When` is kept) and what the entry jumps to are exactly as before.  (Before the repair the
+    call was accepted and the target patched with a stub that had nothing to answer.) -/
+theorem first_returns_empty_rejected (tg : Target) (isM : Bool) (repl : Nat) (ms : MS) (hw : ms.when = none)
+    (h : 0 < tg.sig.outs.length) :
+    seqStep tg isM repl ms (.returns []) = (ms, .error ⟨.returnsNotMatch, [.returnsNotMatch 0 tg.sig.outs.length]⟩) ∧
+    walk [ErrT.returnsNotMatch 0 tg.sig.outs.length] = some (.returnsNotMatch 0 tg.sig.outs.length) := by
+  have hc := (too_few_returns_rejected tg.sig none [] isM (by simpa using h)).1
+  refine ⟨?_, rfl⟩
+  simp [seqStep, hw, normFirst, seqFirst, createWS, firstReturnValues, hc, bind, Except.bind]
+
+/-- in every case a first `Returns()` IS `Return()` (mocker.go `if len(values) == 0 { return m.Return() }`): on a
+    result-less target it is therefore accepted, applied, and the empty default answers -/
+theorem first_returns_empty_is_return (tg : Target) (isM : Bool) (repl : Nat) (ms : MS) (hw : ms.when = none) :
+    seqStep tg isM repl ms (.returns []) = seqStep tg isM repl ms (.ret none) := by
+  simp [seqStep, hw, normFirst]
+
+example : (seqStep { id := 0, sig := ⟨[], [], false, default⟩ } false 1 ⟨G.init, none, .none⟩ (.returns [])).2 = .ok () := rfl
+
+/-- the same for interface-method mockers (iface.go): with an `As` function that has results, a first `Returns()` is
+    rejected with `*erro.ReturnsNotMatch` and the mocker and the variable are untouched -/
+theorem iface_first_returns_empty_rejected (m : Sig) (s : IS) (hw : s.when = none) (hvia : s.via = false)
+    (h : 0 < s.fn.outs.length) :
+    ifaceSeqStep m s (.returns []) = (s, .error ⟨.returnsNotMatch, [.returnsNotMatch 0 s.fn.outs.length]⟩) := by
+  have hc := (too_few_returns_rejected s.fn none [] true (by simpa using h)).1
+  simp [ifaceSeqStep, hvia, ifaceMainStep, hw, normFirst, ifaceFirst, createWS, firstReturnValues, hc, bind, Except.bind]
+
+/-- non-vacuous: `Func(f).Returns()` on `func(int) int` -/
+example :
+    let i : Ty := ⟨.int, 8, 25, false, 0⟩
+    seqStep { id := 0, sig := ⟨[i], [i], false, i⟩ } false 1 ⟨G.init, none, .none⟩ (.returns []) =
+      (⟨G.init, none, .none⟩, .error ⟨.returnsNotMatch, [.returnsNotMatch 0 1]⟩) :=
+  (first_returns_empty_rejected _ _ _ _ rfl (by decide)).1
 
 end C13
